@@ -301,8 +301,16 @@ class Vector():
 		# Preserve name if not explicitly overridden
 		# Use sentinel value (...) to distinguish between name=None (clear) and not passing name (preserve)
 		use_name = self._name if name is ... else name
-		return Vector(list(self._underlying if new_values is None else new_values),
-			dtype = self._dtype,
+		values = list(self._underlying if new_values is None else new_values)
+		dtype = self._dtype
+		if new_values is not None and dtype is not None:
+			# the declared dtype is widened by every new value, exactly as inference would
+			with warnings.catch_warnings():
+				warnings.simplefilter("ignore")
+				for x in values:
+					dtype = dtype.promote_with(x)
+		return Vector(values,
+			dtype = dtype,
 			name = use_name,
 			as_row = self._display_as_row)
 	
